@@ -14,7 +14,7 @@ import sys
 import time
 
 VERIF = os.path.dirname(os.path.dirname(os.path.abspath(__file__)))
-MUT = "/tmp/verif-mut"
+MUT = "/tmp/verif-mut.%d" % os.getpid()
 
 
 def sh(cmd, **kw):
